@@ -37,26 +37,40 @@ var preludeKinds = []struct{ name, src string }{
 
 type faultKind struct {
 	name    string
-	src     string // single-line construct
+	src     string // the faulty construct
 	runtime bool   // needs evaluation to reach it
+	offset  int    // newlines inside the construct before the offending token
 }
 
 var lineFaults = []faultKind{
-	{"undefined-identifier", "{{ nope }}", true},
-	{"mistyped-operand", "{{ 1 + \"a\" }}", true},
-	{"mistyped-operand-comparison", "{{ 2 < \"b\" }}", true},
-	{"unknown-function", "{{ 5.nofn() }}", true},
-	{"unknown-property", "{{ {a: 1}.b }}", true},
-	{"division-by-zero", "{{ 1 / 0 }}", true},
-	{"modulo-by-zero", "{{ 7 % 0 }}", true},
-	{"each-non-array", "@each(q in 5)x@end", true},
-	{"retype", "{{ z8 = 1 }}{{ z8 = \"s\" }}", true},
-	{"illegal-character", "{{ # }}", false},
-	{"illegal-character-in-directive", "@if(1 ~ 2)x@end", false},
-	{"unexpected-token", "{{ 1 + }}", false},
-	{"unexpected-token-in-directive", "@if(1 2)x@end", false},
-	{"unexpected-token-each", "@each(q of [1])x@end", false},
-	{"bad-integer-literal", "{{ 99999999999999999999 }}", false},
+	{"undefined-identifier", "{{ nope }}", true, 0},
+	{"mistyped-operand", "{{ 1 + \"a\" }}", true, 0},
+	{"mistyped-operand-comparison", "{{ 2 < \"b\" }}", true, 0},
+	{"unknown-function", "{{ 5.nofn() }}", true, 0},
+	{"unknown-property", "{{ {a: 1}.b }}", true, 0},
+	{"division-by-zero", "{{ 1 / 0 }}", true, 0},
+	{"modulo-by-zero", "{{ 7 % 0 }}", true, 0},
+	{"each-non-array", "@each(q in 5)x@end", true, 0},
+	{"retype", "{{ z8 = 1 }}{{ z8 = \"s\" }}", true, 0},
+	{"illegal-character", "{{ # }}", false, 0},
+	{"illegal-character-in-directive", "@if(1 ~ 2)x@end", false, 0},
+	{"unexpected-token", "{{ 1 + }}", false, 0},
+	{"unexpected-token-in-directive", "@if(1 2)x@end", false, 0},
+	{"unexpected-token-each", "@each(q of [1])x@end", false, 0},
+	{"bad-integer-literal", "{{ 99999999999999999999 }}", false, 0},
+	// the offending token sits on a later line of a construct that spans lines
+	{"unexpected-token-after-newline-in-array", "{{ [1, 2\n 3] }}", false, 1},
+	{"unexpected-token-after-newline-in-directive", "@if(7\n 8)x@end", false, 1},
+	{"unexpected-token-after-two-newlines-in-call", "{{ \"abc\".contains(\"a\"\n\n \"b\") }}", false, 2},
+	{"unexpected-token-after-newline-each", "@each(q\n of [1])x@end", false, 1},
+	{"unexpected-token-late-in-directive", "@if(1 ==\n\n 1 2)x@end", false, 2},
+	{"expected-expression-after-newlines", "{{ 1 +\n\n }}", false, 2},
+	{"illegal-character-after-newline", "{{ 1 +\n # }}", false, 1},
+	{"illegal-character-at-line-start", "{{\n# }}", false, 1},
+	{"undefined-identifier-after-newline", "{{ 1 +\n nope }}", true, 1},
+	{"unknown-function-after-newline", "{{ 5\n.nofn() }}", true, 1},
+	{"unknown-property-after-newline", "{{ {a: 1}\n.b }}", true, 1},
+	{"each-non-array-after-newline", "@each(q in\n\n 5)x@end", true, 0},
 }
 
 type wrapper struct{ name, open, close string }
@@ -78,7 +92,7 @@ func buildLineCase(preludes []int, w wrapper, f faultKind, lead string) (string,
 	}
 	sb.WriteString(w.open)
 	sb.WriteString(lead)
-	line := 1 + strings.Count(sb.String(), "\n")
+	line := 1 + strings.Count(sb.String(), "\n") + f.offset
 	sb.WriteString(f.src)
 	sb.WriteString(" tail\nafter\n")
 	sb.WriteString(w.close)
@@ -195,10 +209,10 @@ func lineTreeCase(c *core.Ctx, i int) {
 			loadFaults = append(loadFaults, f)
 		}
 	}
-	insertFault := faultKind{"undefined-insert", "@insert(\"nowhere\", 1)", false}
-	insertBlockFault := faultKind{"undefined-insert-block", "@insert(\"nowhere\")x@end", false}
-	compFault := faultKind{"unknown-component", "@component(\"~ghost\")", false}
-	compFault2 := faultKind{"unknown-component-with-args", "@component(\"components/ghost\", {a: 1})", false}
+	insertFault := faultKind{"undefined-insert", "@insert(\"nowhere\", 1)", false, 0}
+	insertBlockFault := faultKind{"undefined-insert-block", "@insert(\"nowhere\")x@end", false, 0}
+	compFault := faultKind{"unknown-component", "@component(\"~ghost\")", false, 0}
+	compFault2 := faultKind{"unknown-component-with-args", "@component(\"components/ghost\", {a: 1})", false, 0}
 	variants := []variant{
 		{"runtime-in-page", "page.tw", "page", runFaults, func(f, pre string) (string, int) {
 			b := pre + "lead "
@@ -237,6 +251,7 @@ func lineTreeCase(c *core.Ctx, i int) {
 	f := v.faults[r.Intn(len(v.faults))]
 	pre := prelude()
 	content, line := v.content(f.src, pre)
+	line += f.offset
 	if v.file == "page.tw" {
 		files["page.tw"] = content
 	} else {
